@@ -86,13 +86,16 @@ PidInit == [now |-> 0, xst |-> Nothing, xcmd |-> Nothing, clock |-> 0, sval |-> 
             pid |-> [cmd |-> InitCmd, lastReq |-> Nothing, u |-> [c |-> "empty"]],
             twin |-> [cmd |-> InitCmd, lastReq |-> Nothing, u |-> [c |-> "empty"]],
             motor |-> <<>>, fresh |-> TRUE, poisoned |-> FALSE, start |-> 0]
-PidOps == {[op |-> "state"], [op |-> "cmd", k |-> 0], [op |-> "cmd", k |-> 1], [op |-> "cmd", k |-> 2], [op |-> "both", k |-> 1], [op |-> "update"]}
+PidOps == {[op |-> "state"], [op |-> "stale"], [op |-> "cmd", k |-> 0], [op |-> "cmd", k |-> 1], [op |-> "cmd", k |-> 2], [op |-> "both", k |-> 1], [op |-> "update"]}
 (* CommandPID::update while following the command getter: set(command), then the input sample *)
 PidUpdate(p, c, t, sv) ==
   LET p1 == CmdStep(PidPar, p, [c |-> "set", k |-> c.k, v |-> c.v], t)
   IN  CmdStep(PidPar, p1, [c |-> "some", v |-> sv], t)
 PidStep(o) ==
   CASE o.op = "state" -> <<[WriteState(st) EXCEPT !.fresh = TRUE], RetOk>>
+    (* a LATE reading: a new state value stamped with a time older than the latest write, so that the time the terminal shows steps back; *)
+    (* the stand-alone controller is fed that time all the same (a negative interval is ordinary arithmetic, only a zero one is not)      *)
+    [] o.op = "stale" -> <<[st EXCEPT !.now = @ + 1, !.xst = Just([t |-> st.now - 1, v |-> StateVal(st.now + 1)]), !.fresh = (st.now - 1 # st.clock)], RetOk>>
     [] o.op = "cmd" -> <<[WriteCmd(st, o.k) EXCEPT !.fresh = IsNothing(st.xst) \/ st.fresh], RetOk>>
     [] o.op = "both" ->
          LET s1 == WriteState(st)
@@ -121,8 +124,8 @@ Ops == CASE Family = "actuator" -> ActOps [] Family = "encoder" -> EncOps [] Fam
 StepOf(o) == CASE Family = "actuator" -> ActStep(o) [] Family = "encoder" -> EncStep(o) [] Family = "pid" -> PidStep(o)
 ObsOf(s) == CASE Family = "actuator" -> ActObs(s) [] Family = "encoder" -> EncObs(s) [] Family = "pid" -> PidObs(s)
 
-(* the PID family starts its environment clock at 0 or at -1: in the second case the first datum carries the wrapper's own initial time *)
-Init == /\ \E n0 \in (IF Family = "pid" THEN {0, -1} ELSE {0}) :
+(* the PID family starts its environment clock at 0, at -1 (the first datum carries the wrapper's own initial time) or at -5 (the first data are OLDER than the initial time) *)
+Init == /\ \E n0 \in (IF Family = "pid" THEN {0, -1, -5} ELSE {0}) :
               st = (CASE Family = "actuator" -> ActInit [] Family = "encoder" -> EncInit [] Family = "pid" -> [PidInit EXCEPT !.now = n0, !.start = n0])
         /\ hist = <<>>
         /\ n = 0
